@@ -21,16 +21,19 @@ class NameModeForce(Suite):
     def gen(self, rng, tier):
         return [dict(names=n, data=d, delete=de) for n in (['exp1', 'exp10'], ['base', 'base_v2'], ['a', 'b'])
                 for d in ('json', 'dir') for de in (True, False)] + \
-               [dict(names=['a', 'b'], data='json', delete=de, order=o) for de in (True, False) for o in ('dependant_first',)]
+               [dict(names=['a', 'b'], data='json', delete=de, order=o) for de in (True, False) for o in ('dependant_first', 'mixed')]
 
     def run_impl(self, case):
         from pathlib import Path
         from .. import pipeline as pl
         from ..suites_chain import K
         classes = [dict(K(0, 'Feat', data=case['data']), name='features'), dict(K(1, 'Score', meta_inputs=[{'cls': 0}]), name='score')]
+        if case.get('order'):
+            classes.append(dict(K(2, 'Top', meta_inputs=[{'cls': 1}]), name='top'))
         files = {f'{n}.json': {'tasks': ['@M.*']} for n in case['names']}
-        if case.get('order') == 'dependant_first':      # the dependant is listed before its input
-            files = {f'{n}.json': {'tasks': ['@M.Score', '@M.Feat']} for n in case['names']}
+        if case.get('order') in ('dependant_first', 'mixed'):      # dependants are listed before their inputs
+            files = {f'{n}.json': {'tasks': ['@M.Top', '@M.Score', '@M.Feat'] if case['order'] == 'dependant_first' else ['@M.Score', '@M.Top', '@M.Feat']}
+                     for n in case['names']}
         elif case.get('order') == 'split_files':         # the dependant in the base config, its input in a used one
             files = {f'{n}.json': {'tasks': ['@M.Score'], 'uses': f'{n}_up.json'} for n in case['names']}
             files.update({f'{n}_up.json': {'tasks': ['@M.Feat']} for n in case['names']})
